@@ -16,7 +16,7 @@ RULE_TEXT = ("C08-C: the payload class of each quoted-string recogniser denotes 
              "parsers are computed (take_while class containing 10, data-driven slices, transitively); at every "
              "application of one, the error kind Incomplete is either propagated or excluded by an explicit kind test on "
              "that path - never dropped by optional/or_else/unwrap_or/map_err; optional() wraps no such parser. "
-             "C08-V: the Value delivered is exactly the taken span. C08-R: run answers Incomplete silently with the "
+             "C08-V: the Value delivered is exactly the taken span. C08-G: a string or block recogniser rejects (other than Incomplete) only on a path where a sub-parser or a fallible conversion failed - never by a test of its own on the payload bytes. C08-R: run answers Incomplete silently with the "
              "input unchanged - on every parse-error path that has not excluded Incomplete - and starts every call at the root; run:resume-keeps-path: the header path of the units already executed survives the resumption of a message (open finding F9). run:resume-keeps-state: run carries no other local from unit to unit (it would be lost at a resumption as well). C08-RAW: run never examines the raw bytes of its input or of a parse remainder outside parse, except to find the terminator behind a failed parse (rule C11-R). C08-F: a unit is `terminated` exactly when its last consumer took a newline (rule C02-F). C08-I also covers a recogniser applied directly behind a newline-transparent scan (the closing quote). C08-C03V: the handler receives the payload itself (conversion table of C03). C08-C12I: an unfinished string or block is Incomplete, never cut short (rule C12-I)."
              " C08-PR: the contracts of the parser combinators the skeleton builds on are read from their bodies - satisfy (accept first byte iff pred / soft error / Incomplete on empty), take_while (never fails; longest prefix, position() form or counting-loop form), optional (never fails; Some(value) or input untouched), tag(b) = satisfy(== b).")
 
@@ -34,6 +34,10 @@ def run(ck):
         if not pr.endswith("::tag"):
             ck.bad("C08", "skeleton:" + pr, pr)
     rule_C(ck, lib, sk)
+    # a container rejects only where its syntax does (a failed quote / length field / UTF-8 conversion), never by a test of
+    # its own on the payload bytes: "any byte its syntax permits ... delivered verbatim" (same criterion as C03-G)
+    import c03
+    c03.reject_by_grammar(ck, sk, "C08-G", {"String", "Arbitrary"}, "payload", "string and block recognisers", 3)
     rule_I(ck, lib, sk, "C08-I")
     rule_R(ck, lib)
     # the bytes of an unfinished message are kept and offered again from their start: process's buffer discipline
